@@ -32,6 +32,37 @@ CLAIMS = {
          "(run_refines; corollaries for len, iteration once each, membership, no-op re-insert, draws are members and surjective, absent removal raises). "
          "The model transcribes draw_set.py statement by statement and is executed against the real class on the same histories (state compared after every operation).",
          TB + "CPython random.choice body executed on scripted randbelow; uniformity of randbelow assumed."),
+ "C04": ("Theorems about the model of both conversions (proved for every edge list with in-range vertices and parallel columns, zero-degree rows, self-loops and "
+         "repeated pairs included): node set is exactly 0..N-1 and annotated (nodes_exact, node_annotated), an edge exists iff its pair occurs (edge_iff_pair_occurs, "
+         "edge_keys_nodup), a pair that occurs once carries that row's name and id (attrs_of_unique_pair), both round trips (roundtrip_edgelist, roundtrip_jds, "
+         "roundtrip_network) and the KeyError branch (reverse_keyerror).",
+         TB + "networkx add_nodes_from/add_edges_from/set_node_attributes/set_edge_attributes semantics are re-defined in Model/Network.lean and compared on every case."),
+ "C05": ("For every pick sequence, sizes and rectangular sequence the handshake patch preserves length, never removes, makes every column divisible, adds exactly "
+         "(size - s mod size) mod size < size stubs per column, which is minimal among all pointwise-larger divisible sequences, is a no-op for size 1, consumes exactly "
+         "that many picks, and the draw is handed the distribution's keys and weights aligned (length_preserved, never_removes, divisible_after, added_exact, added_lt_size, "
+         "added_minimal, size_one_noop, picks_consumed, sample_call_aligned).",
+         TB + "random.choices / random.randrange are assumed to draw as documented (only their arguments are checked); tuple-ness of entries is checked by the oracle on the real objects."),
+ "C06": ("Value/support/normalisation theorems for every deterministic loader over exact rationals: empirical_freq, empirical_sums_one, marginal_direct_value/support/sums_one/"
+         "nonneg/zero (error branch), sampled_calls_aligned + marginal_sampled_is_empirical, function_value/support, load_eq_direct_*. PARTIAL: the many-samples limit of sampling "
+         "mode is kept as the unproved statement marginal_sampled_limit_full (no executable model exhibits a limit).",
+         TB + "weights are exact rationals (the real code runs on an exact number type); random.choices assumed to draw in proportion to the weights."),
+ "C07": ("validSplits enumerates exactly the joint degrees with edgesOf = k, each once (validSplits_sound/complete/nodup); for the split loader the mass of each degree class is "
+         "fp k / S, within a class mass is proportional to the split weight, the table sums to 1 and its support is exact (split_class_mass, split_within_class, split_sums_one, "
+         "split_support); delta loader: delta_off_target, delta_on_target, delta_target_outside_range, delta_sums_one; ZeroDivisionError branch characterised (resolve_error_iff).",
+         TB + "weights are exact rationals (the real code runs on an exact number type)."),
+ "C08": ("For every cover over vertices numbered contiguously from 0 or 1: reported sizes are exactly the occurring sizes ascending (motif_sizes_spec), no IndexError and the surviving "
+         "columns are those sizes in order (cover_columns, coverJds_eq), entries are per-vertex clique counts (cover_counts), the table is their empirical distribution (cover_jdd), "
+         "and column sums are size times the number of cliques of that size (cover_handshake) so the generators' handshake holds.",
+         TB + "frequencies are recovered as exact rationals from the int/int floats."),
+ "C13": ("Model of the (repaired) extractor with its persistent counter; correspondence compares every matrix entry as an exact rational over 1-4 successive calls. Theorems (Properties/C13.lean) "
+         "are listed in the evidence file on every run.",
+         TB + "float accumulations are mapped back to exact rationals with denominator 2E."),
+ "C14": ("Model of all static conversion functions over exact rationals, compared entry by entry with the real functions run on an exact number type, including the inversion with the code's "
+         "own choice of common key. Theorems (Properties/C14.lean) are listed in the evidence file on every run.",
+         TB + "the arbitrary common key is read from the code's own expression and passed to the model."),
+ "C18": ("kept_iff / kept_list_form (each edge's fate depends on its own draw only), phi_one_exact, phi_zero (for draws > 0), multiple_of_inv_N, empty_graph_raises, star_counts_kept "
+         "(N*S-1 = number of retained edges on a star), on top of a proved specification of the executable reachability (Lemmas/Reach: mem_comp_iff, fuel |V| suffices).",
+         TB + "random.random() assumed i.i.d. uniform; networkx component semantics re-defined in Model/Graph.lean and compared per case."),
 }
 
 NOT_YET = "not yet built in this revision (model, theorems and correspondence check are planned in DESIGN.md §6; the technique applies)"
